@@ -89,10 +89,13 @@ impl Environment {
             .collect::<HashSet<_>>();
         let mut vars = self.vars.clone();
 
-        let offset = if let Some(offset) = self.var_mapping.get(var) {
-            *offset + 1
-        } else if let Some(offset) = var_mapping.get(var) {
+        // The builder counts every definition of a name in the file, so its offset is unique; the
+        // offset of this environment plus one may already be taken by a definition in a block
+        // that has ended (a branch that shadowed the name).
+        let offset = if let Some(offset) = var_mapping.get(var) {
             *offset
+        } else if let Some(offset) = self.var_mapping.get(var) {
+            *offset + 1
         } else {
             0_usize
         };
